@@ -9,7 +9,7 @@ git apply "$P" || { echo "try_mutant: patch does not apply"; exit 2; }
 trap 'git -C /repo checkout -- . ' EXIT
 go build ./... >/tmp/tm.build 2>&1 || { echo "RESULT $PROP $(basename $(dirname $P)): DOES-NOT-BUILD"; tail -3 /tmp/tm.build; exit 0; }
 T=$(go test -vet=off -count=1 ./... 2>&1 | grep -c "^FAIL")
-OUT=$(/verif/bin/check $PROP "$@" 2>&1)
+OUT=$(VERIF_EVIDENCE_DIR=/tmp/mutant-evidence /verif/bin/check $PROP "$@" 2>&1)
 RC=$?
 V=$(echo "$OUT" | grep -A1 "^VIOLATION" | grep -v "^VIOLATION\|^--" | head -4 | tr '\n' ';')
 echo "RESULT $PROP $(basename $(dirname $P)): suite_fail_pkgs=$T check_rc=$RC $(echo "$OUT" | grep '^check:' | tail -1 | sed 's/check: //') :: $V"
